@@ -221,8 +221,9 @@ def c09(ctx):
         fn = (f"fun x : Z => let g := fold_left (fun h a => fold_left (fun h b => (h * 65537 + merge_cell {cfg.nr} {cfg.umax} "
               f"{cfg.max_count} dc {w} a b) mod {P61}) (zrange 0 {n}) h) (zrange 0 {n}) 0 in "
               f"match x with 0 => g =? {h} | 1 => merge_grid_b {cfg.nr} {cfg.umax} {cfg.max_count} dc {w} "
-              f"| _ => merge_nearest_grid_b {cfg.nr} {cfg.umax} {cfg.max_count} dc {w} end")
-        jobs.append((f"c09_grid_{ci}", fn, ["0", "1"] + (["2"] if (ci < 1 or not quick) else []), 1, L.coq_table_prelude(cfg, None)))
+              f"| 2 => merge_nearest_grid_b {cfg.nr} {cfg.umax} {cfg.max_count} dc {w} "
+              f"| _ => float_tables_ok_b {cfg.nr} {cfg.umax} {cfg.max_count} dc end")
+        jobs.append((f"c09_grid_{ci}", fn, ["0", "1", "3"] + (["2"] if (ci < 1 or not quick) else []), 1, L.coq_table_prelude(cfg, None)))
         del a, b
     ctx.cov["log8_pairs_enumerated"] = len(cfgs8) * 65536
     # ---- log16: all 65536 counters against the empty sketch, and sampled pairs
@@ -278,6 +279,9 @@ def c09(ctx):
         cases = [f"({int(A[i])}, {int(B[i])}, {int(M[i])})" for i in sel]
         fn = (f"fun t : Z * Z * Z => let '(a, b, m) := t in merge_cell {cfg.nr} {cfg.umax} {cfg.max_count} dc {w} a b =? m")
         jobs.append((f"c09_log16_{ci}", fn, cases, 800, L.coq_table_prelude(cfg, tabmods.get(cfg.key()))))
+        # premise of C09_log_tables_sound (linear-size check) on the real log16 tables
+        jobs.append((f"c09_log16_tables_{ci}", f"fun x : Z => float_tables_ok_b {cfg.nr} {cfg.umax} {cfg.max_count} dc", ["0"], 1,
+                     L.coq_table_prelude(cfg, tabmods.get(cfg.key()))))
         del a, b, x, y, z, z2
     ctx.tick("log merges on the implementation")
     _run_jobs(ctx, jobs, "cms-log merge (C09)")
